@@ -560,8 +560,10 @@ pub fn render_case(c: &Case) -> String {
         s.push_str("trap : USR1\n");
     }
     render_block(&c.nodes, &mut s, "\n");
-    // whatever the program did, the shell ends with the descriptors it began with
-    s.push_str("fds\n");
+    // whatever the program did, the shell ends with the descriptors it began
+    // with (written to a file first: under crash injection an orphan may still
+    // be writing to the shared standard output)
+    s.push_str("fds >fds_final\ncat fds_final\n");
     s
 }
 
@@ -795,7 +797,7 @@ pub fn expect(c: &Case) -> Expect {
         ..Default::default()
     };
     eval_block(&c.nodes, &mut cx);
-    cx.out.push("fds: 0 1 2".into());
+    cx.out.push(FDS_FINAL.into());
     let mut stdout = cx.out.join("\n");
     if !cx.out.is_empty() {
         stdout.push('\n');
@@ -1213,8 +1215,13 @@ fn spec_with_fds(c: &Case) -> ScriptSpec {
     spec_of(c)
 }
 
-fn fds_line(stdout: &str) -> Option<&str> {
-    stdout.lines().rev().find(|l| l.starts_with("fds:"))
+/// (descriptor 1 is redirected while `fds` runs: its saved copy is 10c)
+const FDS_FINAL: &str = "fds: 0 1 2 10c";
+
+fn fds_line(obs: &Observed) -> Option<String> {
+    let (_, _, content) = obs.files.get("/work/fds_final")?;
+    let text = String::from_utf8_lossy(content);
+    text.lines().next().map(str::to_string)
 }
 
 /// The main shell's final descriptor table in the fault-free FIFO run, and the
@@ -1225,7 +1232,7 @@ fn emfile_baseline(c: &Case) -> (String, u32) {
         ..Default::default()
     };
     let obs = run_script(&spec_with_fds(c), &cfg, Decider::record(Rng::new(1)));
-    (fds_line(&obs.stdout).unwrap_or("").to_string(), obs.alloc_count)
+    (fds_line(&obs).unwrap_or_default(), obs.alloc_count)
 }
 
 fn run_emfile(
@@ -1238,7 +1245,7 @@ fn run_emfile(
     let obs = run_script(&spec_with_fds(c), cfg, decider);
     let mut v = check_run_opt(c, exp, &obs, false);
     if v.is_none()
-        && let Some(l) = fds_line(&obs.stdout)
+        && let Some(l) = fds_line(&obs)
         && l != base_fds
     {
         v = Some((
@@ -1251,6 +1258,19 @@ fn run_emfile(
         ));
     }
     (obs, v)
+}
+
+/// Under any fault: if the shell got as far as printing its descriptor table,
+/// it is the initial one.
+fn fd_leak(obs: &Observed, what: &str) -> Option<(String, String, String)> {
+    match fds_line(obs) {
+        Some(l) if l != FDS_FINAL => Some((
+            "fd-leak".into(),
+            "fd-leak".into(),
+            format!("{what}: the shell ends with `{l}` instead of `{FDS_FINAL}`\nstderr {:?}", obs.stderr),
+        )),
+        _ => None,
+    }
 }
 
 fn run_crash(c: &Case, cfg: &SimConfig, decider: Decider) -> Observed {
@@ -1344,7 +1364,7 @@ impl Prop for C13 {
                 stats.note_run(case_hash ^ 0xEA6A, &obs.outcome, obs.faults_fired);
                 stats.add_counters(&obs.counters);
                 stats.digest(index, crate::shellrun::obs_digest(&obs));
-                if let Some(v) = check_run_opt(&case, &exp, &obs, false) {
+                if let Some(v) = check_run_opt(&case, &exp, &obs, false).or_else(|| fd_leak(&obs, "after a fork failed with EAGAIN")) {
                     stats.count("violating_runs", 1);
                     let mut f = failure(&case, &cfg, &obs, &[], v);
                     f.key = format!("eagain:{}", f.key);
@@ -1369,7 +1389,7 @@ impl Prop for C13 {
                 stats.note_run(case_hash ^ 0xC4A5, &obs.outcome, obs.faults_fired);
                 stats.add_counters(&obs.counters);
                 stats.digest(index, crate::shellrun::obs_digest(&obs));
-                if let Some(v) = check_run_opt(&case, &exp, &obs, false) {
+                if let Some(v) = check_run_opt(&case, &exp, &obs, false).or_else(|| fd_leak(&obs, "after children were killed from outside")) {
                     stats.count("violating_runs", 1);
                     let mut f = failure(&case, &cfg, &obs, &[], v);
                     f.key = format!("crash:{}", f.key);
@@ -1418,7 +1438,7 @@ impl Prop for C13 {
         }
         if cfg.crash_permille > 0 {
             let obs = run_crash(&c, cfg, Decider::replay(decisions));
-            return check_run_opt(&c, &exp, &obs, false).map(|v| {
+            return check_run_opt(&c, &exp, &obs, false).or_else(|| fd_leak(&obs, "after children were killed from outside")).map(|v| {
                 let mut f = failure(&c, cfg, &obs, decisions, v);
                 f.key = format!("crash:{}", f.key);
                 f
@@ -1426,7 +1446,7 @@ impl Prop for C13 {
         }
         if cfg.fail_spawn_at.is_some() {
             let obs = run_script(&spec_of(&c), cfg, Decider::replay(decisions));
-            return check_run_opt(&c, &exp, &obs, false).map(|v| {
+            return check_run_opt(&c, &exp, &obs, false).or_else(|| fd_leak(&obs, "after a fork failed with EAGAIN")).map(|v| {
                 let mut f = failure(&c, cfg, &obs, decisions, v);
                 f.key = format!("eagain:{}", f.key);
                 f
